@@ -42,15 +42,26 @@ pub struct Case {
     pub lf0: Vec<Option<f64>>,
     /// low-pass coefficients (empty = no LPF stream)
     pub lpf: Vec<f64>,
+    /// optional second / third coefficient vectors and the per-frame choice among them
+    /// (empty = the same `lpf` in every frame)
+    #[serde(default)]
+    pub lpf_alt: Vec<Vec<f64>>,
+    #[serde(default)]
+    pub lpf_choice: Vec<usize>,
 }
 
 fn run(c: &Case, lpf: &[f64]) -> Vec<f64> {
+    run_varying(c, &|_| lpf)
+}
+
+/// Render with a low-pass vector chosen per frame.
+fn run_varying<'a>(c: &Case, lpf_of: &dyn Fn(usize) -> &'a [f64]) -> Vec<f64> {
     let spectrum = [0.0, 0.0];
-    let mut v = Vocoder::new(2, lpf.len(), 0, false, c.rate, 0.0, 0.0, 1.0, c.fperiod);
+    let mut v = Vocoder::new(2, lpf_of(0).len(), 0, false, c.rate, 0.0, 0.0, 1.0, c.fperiod);
     let mut out = vec![0.0; c.fperiod * c.lf0.len()];
     for (f, l) in c.lf0.iter().enumerate() {
         let lf0 = l.unwrap_or(NODATA);
-        v.synthesize(lf0, &spectrum, lpf, &mut out[f * c.fperiod..(f + 1) * c.fperiod]);
+        v.synthesize(lf0, &spectrum, lpf_of(f), &mut out[f * c.fperiod..(f + 1) * c.fperiod]);
     }
     out
 }
@@ -233,7 +244,7 @@ impl Prop for PulseTrain {
         };
         let nframes = t.urange(2, 40);
         let lf0 = gen_f0_track(t, rate, nframes, true);
-        Case { rate, fperiod, lf0, lpf: vec![] }
+        Case { rate, fperiod, lf0, lpf: vec![], lpf_alt: vec![], lpf_choice: vec![] }
     }
     fn check(&self, c: &Case) -> Result<Report, Failure> {
         let out = run(c, &[]);
@@ -300,7 +311,7 @@ impl Prop for NoiseStats {
         NoiseCase { rate, fperiod, frames, lpf_len }
     }
     fn check(&self, c: &NoiseCase) -> Result<Report, Failure> {
-        let case = Case { rate: c.rate, fperiod: c.fperiod, lf0: vec![None; c.frames], lpf: vec![] };
+        let case = Case { rate: c.rate, fperiod: c.fperiod, lf0: vec![None; c.frames], lpf: vec![], lpf_alt: vec![], lpf_choice: vec![] };
         let lpf: Vec<f64> = (0..c.lpf_len).map(|i| 0.3 / (1.0 + i as f64)).collect();
         let out = run(&case, &lpf);
         let skip = c.lpf_len / 2; // the LPF path delays the noise by the filter's centre
@@ -334,7 +345,7 @@ impl Prop for MixedExcitation {
         "mixed-excitation".into()
     }
     fn rule(&self) -> String {
-        "LPF stream of odd order 1..31 with random h; same frames rendered with h (A), with h = delta (B) and with h = 0 (C): A[n] = C[n] + sum_i h[i] (B-C)[n-i+centre] to 1e-12 (noise-free metamorphic form of 'h*pulses + (delta-h)*noise'); B obeys the pulse-train law delayed by the centre tap; C is pure noise. Non-trivial: >= 1 voiced frame with a pulse and order >= 3".into()
+        "LPF stream of odd order 1..31 with random h, constant or (50 %) changing from frame to frame among 2-3 vectors; same frames rendered with h (A), with h = delta (B) and with h = 0 (C): A[n] = C[n] + sum_i h[i] (B-C)[n-i+centre] to 1e-12 (noise-free metamorphic form of 'h*pulses + (delta-h)*noise'); B obeys the pulse-train law delayed by the centre tap; C is pure noise. Non-trivial: >= 1 voiced frame with a pulse and order >= 3".into()
     }
     fn tape_len(&self, _: Tier) -> usize {
         240
@@ -352,8 +363,17 @@ impl Prop for MixedExcitation {
             1 => 1 + 2 * t.urange(1, 15),
             _ => 31,
         };
-        let lpf = (0..order).map(|_| t.uniform(-0.5, 1.0)).collect();
-        Case { rate, fperiod, lf0, lpf }
+        let lpf: Vec<f64> = (0..order).map(|_| t.uniform(-0.5, 1.0)).collect();
+        // half of the cases: the low-pass stream changes from frame to frame (it is a stream)
+        let (lpf_alt, lpf_choice) = if t.chance(0.5) {
+            let k = t.urange(1, 2);
+            let alt: Vec<Vec<f64>> = (0..k).map(|_| (0..order).map(|_| t.uniform(-0.5, 1.0)).collect()).collect();
+            let choice = (0..nframes).map(|_| t.below(k + 1)).collect();
+            (alt, choice)
+        } else {
+            (vec![], vec![])
+        };
+        Case { rate, fperiod, lf0, lpf, lpf_alt, lpf_choice }
     }
     fn check(&self, c: &Case) -> Result<Report, Failure> {
         let l = c.lpf.len();
@@ -361,7 +381,17 @@ impl Prop for MixedExcitation {
         let mut delta = vec![0.0; l];
         delta[centre] = 1.0;
         let zero = vec![0.0; l];
-        let a = run(c, &c.lpf);
+        let varying = !c.lpf_alt.is_empty();
+        let h_of = |f: usize| -> &[f64] {
+            if !varying {
+                return &c.lpf;
+            }
+            match c.lpf_choice.get(f).copied().unwrap_or(0) {
+                0 => &c.lpf,
+                k => &c.lpf_alt[(k - 1).min(c.lpf_alt.len() - 1)],
+            }
+        };
+        let a = run_varying(c, &h_of);
         let b = run(c, &delta);
         let cc = run(c, &zero);
         let n_total = a.len();
@@ -373,9 +403,16 @@ impl Prop for MixedExcitation {
         let d: Vec<f64> = b.iter().zip(&cc).map(|(x, y)| x - y).collect();
         let mut worst = 0.0f64;
         for n in 0..n_total.saturating_sub(centre) {
+            // With a frame-varying h only samples whose whole tap window [n-L+1, n] lies in one
+            // frame are compared: there "the current h" is unambiguous (whether an implementation
+            // applies h when a sample enters or when it leaves the filter).
+            let frame = n / fp;
+            if varying && (n + 1 < l || (n + 1 - l) / fp != frame) {
+                continue;
+            }
             let mut want = cc[n];
             let mut mag = cc[n].abs();
-            for (i, hi) in c.lpf.iter().enumerate() {
+            for (i, hi) in h_of(frame).iter().enumerate() {
                 if n + centre < i {
                     continue;
                 }
@@ -404,7 +441,7 @@ impl Prop for MixedExcitation {
         // in voiced frames B[m+centre] = pulse or 0
         let mut shifted = e.clone();
         shifted.resize(n_total, 0.0);
-        let trimmed = Case { rate: c.rate, fperiod: c.fperiod, lf0: c.lf0[..(n_total - centre) / fp].to_vec(), lpf: vec![] };
+        let trimmed = Case { rate: c.rate, fperiod: c.fperiod, lf0: c.lf0[..(n_total - centre) / fp].to_vec(), lpf: vec![], lpf_alt: vec![], lpf_choice: vec![] };
         check_pulse_law(&trimmed, &shifted, &mut rep)?;
         for m in 0..n_total - centre {
             if c.lf0[m / fp].is_none() {
@@ -415,6 +452,7 @@ impl Prop for MixedExcitation {
         rep.nontrivial = pulses >= 1 && l >= 3;
         rep.class(format!("order:{}", match l { 1 => "1", 3..=9 => "3-9", 11..=29 => "11-29", _ => "31" }));
         rep.class_if(c.lf0.iter().any(|x| x.is_none()), "has-unvoiced");
+        rep.class_if(varying, "frame-varying-h");
         rep.classes.sort();
         rep.classes.dedup();
         Ok(rep)
